@@ -31,6 +31,10 @@ func genNewickName(t *rapid.T) gen.B {
 		return gen.Word(1, 5).Draw(t, "plain")
 	case 2:
 		return gen.B(rapid.SliceOfN(rapid.Byte(), 0, 5).Draw(t, "raw"))
+	case 3:
+		if rapid.IntRange(0, 9).Draw(t, "long") == 0 {
+			return gen.Alphabet{Hostile: []byte(" _'(),:;\t\n"), Exclude: nil}.Field(6, 100, 3000).Draw(t, "longname")
+		}
 	}
 	n := rapid.IntRange(0, 6).Draw(t, "nsym")
 	var out []byte
